@@ -14,7 +14,7 @@ import (
 )
 
 var mkWords = []string{"hello", "x", "héllo", "日本", "a b", "  ", "cat", "ünï", "q", "1", "Mr", "…"}
-var mkNames = []string{"a", "b", "em", "wave", "c1", "é"}
+var mkNames = []string{"a", "b", "em", "wave", "c1", "é", "character", "character"} // "character" is also what "Name: text" turns into
 
 func genMarkupLine(tp *Tape, id string, allowFail bool) (string, bool) {
 	return genMarkupLineAt(tp, id, allowFail, false)
